@@ -75,8 +75,12 @@ type Result struct {
 	ClientState        tls.ConnectionState
 	ServerState        tls.ConnectionState
 	ClientCurve        uint16 // Conn.curveID on the client
-	ServerCurve        uint16
-	ClientDidHRR       bool
+	// FinalState / FinalCurve: the client's ConnectionState and Conn.curveID after Handshake returned, ALSO when it failed
+	// (what the connection reports after an abort)
+	FinalState   tls.ConnectionState
+	FinalCurve   uint16
+	ServerCurve  uint16
+	ClientDidHRR bool
 	// AlertFromClient: alert description the server received from the client (-1 none);
 	// AlertFromServer likewise on the client side.
 	AlertFromClient int
@@ -210,6 +214,8 @@ func Run(o Opts) *Result {
 		res.Spec = &sp
 	}
 	res.ClientErr = uc.Handshake()
+	res.FinalState = uc.ConnectionState()
+	res.FinalCurve = tls.VerifCurveID(uc.Conn)
 	if res.ClientErr == nil {
 		res.ClientState = uc.ConnectionState()
 		res.ClientCurve = tls.VerifCurveID(uc.Conn)
